@@ -11,6 +11,46 @@ TB = ("Trusted: Lean 4.33 kernel; axioms of every property theorem printed per r
       "lxml/libxml2 and CPython are modelled, not verified. ")
 
 CLAIMED = {
+    "C05": dict(
+        text="Proof: sibling walking on the slot/chain encoding (models of iterate_children's start, "
+             "_fetch_following_sibling and fetch_preceding_sibling for DATA/TAIL/APPENDED text nodes and element wrappers) "
+             "enumerates exactly the visible child list in order, following/preceding sibling are inverse and move one "
+             "index; the explicit-stack loop of iterate_descendants yields the pre-order; ancestors/depth are the parent "
+             "chain; preceding-reversed ++ node ++ following is the document order; last_descendant, full_text and the three "
+             "traversers are characterised (Props/C05.lean). Tie to code: every relation of every node of forests reached by "
+             "random edit histories on the real objects == compiled model == independent Python computation; filtered "
+             "iterators == restricted unfiltered ones for four type filters; document-order sort of random tag subsets.",
+        note=TB + "No ambient filters unless the filter is the subject; trees reachable by Legal histories.",
+        technique="Lean 4 theorems (walk invariants over the encoding, loop invariant for the explicit stack, partition by induction on paths) + differential correspondence",
+        design="3/C05",
+    ),
+    "C09": dict(
+        text="Proof: the guards of the editing API (attachment check of _prepare_new_relative, both "
+             "_validate_sibling_operation variants, detach/replace/insert/__setitem__/__delitem__ guards, comment-content and "
+             "PI-target validators) are modelled in Lean and proved to reject exactly the declaratively illegal calls with the "
+             "class the code uses, to pass every Legal edit, and the validators to accept exactly well-formed comments / "
+             "non-reserved targets (Props/C09.lean). That a rejected call leaves the real trees untouched concerns mutation "
+             "order in Python, which a functional model cannot exhibit; it is established by exploration on the implementation: "
+             "every kind of illegal single-node call on forests reached by edit histories - exception class vs the guard "
+             "model and full before/after dumps of all trees.",
+        note=TB + "The 'unchanged after rejection' half of the property rests on the correspondence run, not on a theorem "
+             "(partial by construction). Known finding: node[0] = attached_node on an empty tag node (pinned by the suite).",
+        technique="Lean 4 theorems over the guard model + exhaustive-by-kind exploration of illegal calls on the implementation with before/after dumps",
+        design="3/C09",
+    ),
+    "C10": dict(
+        text="Proof: deep clone = same tree with fresh identities numbered in document order (with c01_clone for the "
+             "mechanism), shallow clone keeps name and attributes only, cloning appends one parentless group and changes "
+             "nothing else, every edit leaves untouched groups unchanged (frame) hence histories on one side are invisible on "
+             "the other, _copy_root_siblings' two stacks reproduce prologue and epilogue in order (Props/C10.lean). Tie to "
+             "code: clones (clone deep/shallow, copy, deepcopy, Document.clone) of nodes of every kind in forests reached by "
+             "edit histories: equality, freshness of every object, no tail, then random edits confined to one side with the "
+             "other side re-dumped; compiled clone model compared per case.",
+        note=TB + "Cyclic collector off during a case (segmentation of unreferenced clones is C04's allowance); documents "
+             "without attributes under a default namespace (C11 finding).",
+        technique="Lean 4 theorems (clone numbering, frame/independence by induction over histories) + differential correspondence",
+        design="3/C10",
+    ),
     "C01": dict(
         text="Proof: delb's text-node mechanism (TextNode objects chained on lxml's text/tail slots; DATA/TAIL/APPENDED cases "
              "of _add_following_sibling, _add_preceding_sibling, _add_next_element_wrapping_node, _prepend_text_node, "
